@@ -29,7 +29,9 @@ W_PAREN = ["(", ")", "-LRB-", "-RRB-", "[", "]", "{", "}", "a(b", "-LSB-", "(s)"
            "{a}(b)", "f(x)[0]"]
 W_PUNCT = [",", ".", "?", "!", ";", ":", "--", "-", "/", "..."]
 W_PAIR = ["\"", "'", "''", "`", "``"]
-W_HASH = ["#5021", "#12", "#", "#abc", "#1234x", "##", "#500th"]
+W_HASH = ["#5021", "#12", "#", "#abc", "#1234x", "##", "#500th",
+          # words that begin like the keywords / comment marker of the export format
+          "#BOS", "#BOSTON", "%%", "%%-Punkte", "%", "#FORMAT", "#BOS1"]
 W_PARENTOK = ["(", ")"]           # stand-alone bracket tokens
 W_USPACE = ["10\u00a0000", "a\u2009b", "\u00a0", "x\u3000y"]      # not whitespace for the formats
 W_LEN = ["abcdefg", "abcdefgh", "abcdefghijklmno", "abcdefghijklmnop", "abcdefghijklmnopq",
